@@ -149,6 +149,19 @@ def make_files(rng, ctx):
         files.append(f)
         if area % 4096:
             raise core.Inconclusive(f'alignment rung: record area at {area}')
+    # record-count rung: a reader that takes the records of a version-2 dump B at a time (into a buffer it re-uses) meets a
+    # cut inside a record of its SECOND, third ... block - beyond the first 256 / 1024 / 4096 / 16384 (/ 65536) records; the
+    # records are all different, so bytes left over from an earlier block cannot pass for the missing ones
+    blocks = ctx.pick((256, 1024, 4096, 16384), (256, 1024, 4096, 16384, 65536))
+    many = gen.gen_records(rng, blocks[-1] + 40, first_nonzero=True)
+    data = wire.v2_file([(11, 100, b'proc0', b'')], 8, many)
+    area = len(data) - 64 * len(many)
+    f = {'kind': 'v2', 'entries': [(11, 100, b'proc0', b'')], 'pad': 8, 'records': many, 'data': data,
+         'label': f'v2 dump of {len(many)} distinct records (cuts inside records beyond the first {list(blocks)})',
+         'offsets': sorted({area + 64 * (b + j) + r for b in blocks for j in (0, 1, 7, 39) for r in (1, 7, 32, 51, 52, 63)} |
+                           {area + 64 * (2 * b + 3) + 17 for b in blocks[:-1]}),
+         'pipelines': ('kevents',)}
+    files.append(f)
     # a version-3 dump whose events chunks declare a length that is not a whole number of records (fill bytes after the
     # last record); whatever the tool makes of the complete file, every cut of it must stop and report a prefix of that
     evs = gen.gen_scenario_events(rng, n_scenarios=3)
